@@ -225,7 +225,8 @@ struct Opts {
     std::string fees{"zlmh"};            // fee alphabet of N
     std::string fees_special{"m"};       // fee alphabet of NY NL NQ
     std::string child_fees{"mh"};        // fee alphabet of C / J
-    std::string thr{"abcde"};            // thresholds of R / SB / PR
+    std::string thr{"abcde"};            // thresholds of R
+    std::string thr_rb{"cd"}, thr_sb{"cd"}, thr_pr{"cd"}; // thresholds of RB / SB / PR
     std::string pk_parent{"zl"}, pk_child{"hk"};
     std::vector<int> pad_sizes{};        // CP sizes
     int max_idx{3};                      // pool-indexed events address only the first max_idx non-filler pool txs (txid order)
@@ -639,7 +640,7 @@ struct Sim {
             if (!ins_of(old, ins, vals)) return a;
             CAmount S = ModSum(s, s.Desc(i));
             a.target = i;
-            auto par = MkFee(ins, vals, 3, [&](int64_t vs) { return FeeCode('l', vs); }, old.version);
+            auto par = MkFee(ins, vals, 1, [&](int64_t vs) { return FeeCode('l', vs); }, old.version);
             if (!par || par->GetHash() == old.GetHash()) return a;
             int64_t pvs = RefVsize(*par);
             CAmount pfee = *FeeCode('l', pvs);
@@ -767,10 +768,10 @@ struct Sim {
             if (o.has("CV")) cand.push_back("C:" + I + ":1:" + std::to_string(t.version == 3 ? 2 : 3) + ":h");
             if (o.has("CP")) for (int sz : o.pad_sizes) cand.push_back("CP:" + I + ":1:" + std::to_string(t.version) + ":" + std::to_string(sz));
             if (o.has("R")) for (char th : o.thr) cand.push_back("R:" + I + ":" + S(th));
-            if (o.has("RB")) for (char th : o.thr) cand.push_back("RB:" + I + ":" + S(th));
+            if (o.has("RB")) for (char th : o.thr_rb) cand.push_back("RB:" + I + ":" + S(th));
             if (o.has("RS")) cand.push_back("RS:" + I);
-            if (o.has("SB")) for (char th : o.thr) cand.push_back("SB:" + I + ":" + S(th));
-            if (o.has("PR")) for (char th : o.thr) cand.push_back("PR:" + I + ":" + S(th));
+            if (o.has("SB")) for (char th : o.thr_sb) cand.push_back("SB:" + I + ":" + S(th));
+            if (o.has("PR")) for (char th : o.thr_pr) cand.push_back("PR:" + I + ":" + S(th));
             if (o.has("MC")) cand.push_back("MC:" + I);
             if (o.has("P")) { cand.push_back("P:" + I + ":+"); if (o.prio_minus) cand.push_back("P:" + I + ":-"); }
         }
@@ -879,6 +880,12 @@ struct Sim {
             pool().check(n.cs().CoinsTip(), n.cs().m_chain.Height() + 1);
         }
         st.post = Take();
+        if (getenv("VX_POOLDIAG")) {
+            if (st.res) printf("  result: type=%d %s\n", (int)st.res->m_result_type, st.res->m_state.ToString().c_str());
+            if (st.test) printf("  test result: type=%d %s\n", (int)st.test->m_result_type, st.test->m_state.ToString().c_str());
+            if (st.pres) { printf("  package: %s\n", st.pres->m_state.ToString().c_str()); for (auto& [w, r] : st.pres->m_tx_results) printf("    %s type=%d %s\n", w.ToString().substr(0, 12).c_str(), (int)r.m_result_type, r.m_state.ToString().c_str()); }
+            if (a.kind == Act::BLOCK) printf("  block: ret=%d valid=%d %s\n", (int)st.bres.pnb_ret, (int)st.bres.valid, st.bres.reason.c_str());
+        }
         Classify(st);
         if (mon) mon->after(*this, st);
     }
